@@ -21,10 +21,11 @@ RULE = ("seeded random result contents: 1-6 distinct inputs, 1-20 distinct outpu
         "application; distinct = (container, mapping, invert, collision class, value type, shape); non-trivial = at "
         "least two pre-images merge or a row is empty")
 MANDATORY = ["preimages_merge", "empty_row", "amplitude_refused", "sampling_result", "simulation_result",
-             "repeated_application", "complex_values"]
+             "repeated_application", "complex_values", "tiny_weights"]
 DECIDING = ["mon.simres_init_postconditions", "mon.mapping_postconditions", "mon.sampres_init_postconditions"]
 BUDGET = {"quick": 20, "thorough": 300}
-ASSUMPTIONS = ["per-input totals preserved to 1e-12 x (1 + L1 norm of the row)"]
+ASSUMPTIONS = ["weights and per-input totals preserved to 1e-12 relative to the L1 norm of the row (tables at scales "
+               "from 1e-12 to 1e3 are generated)"]
 
 
 def thr(s, invert):
@@ -129,12 +130,12 @@ def install(lw):
                         return res
                     l1 = sum(abs(v) for v in row.values())
                     for k in want:
-                        if abs(got[k] - want[k]) > 1e-12 * (1 + l1):
+                        if abs(got[k] - want[k]) > 1e-12 * l1 + 1e-300:
                             circmon.report("C17", f"{name}(invert={invert}): weight of {list(k)} is {got[k]!r}, the "
                                                   f"pre-images sum to {want[k]!r}", monitor=name + " post-condition",
                                            mechanism="mapping_weight:" + name)
                             return res
-                    if abs(sum(got.values()) - sum(row.values())) > 1e-12 * (1 + l1):
+                    if abs(sum(got.values()) - sum(row.values())) > 1e-12 * l1 + 1e-300:
                         circmon.report("C17", f"{name}: total of input {i} changed", monitor=name + " post-condition",
                                        mechanism="mapping_total:" + name)
                 if is_sim:
@@ -175,6 +176,15 @@ def run(ctx):
         kind = str(rng.choice(["probability", "probability", "probability_amplitude"]))
         cplx = kind == "probability_amplitude"   # complex values only make sense as amplitudes
         arr = rng.random((len(ins), len(outs)))
+        scale = float(rng.choice([1.0, 1.0, 1e-3, 1e-6, 1e-9, 1e-12, 1e3]))
+        arr = arr * scale
+        if scale <= 1e-6:
+            ctx.bucket("tiny_weights")
+        if rng.random() < 0.2 and arr.size:
+            # a few isolated very small weights in an otherwise ordinary table
+            idx = rng.integers(0, arr.size, size=max(1, arr.size // 4))
+            arr.flat[idx] = rng.random(len(idx)) * 1e-9
+            ctx.bucket("tiny_weights")
         if cplx:
             arr = arr + 1j * rng.normal(size=arr.shape)
             ctx.bucket("complex_values")
